@@ -47,13 +47,19 @@ Proof. vm_compute. repeat split. Qed.
 (* Round trip for every well-formed message value (dns_wf, LdnsRt.v): header fields in range, fewer than
    65536 entries per section, every name as the decoder presents it — labels of 1..63 octets, wire
    length at most 255, joined by dots, with the private label metadata present exactly when some
-   label holds a literal dot or backslash (wf_q, wf_rr with canon_names) — and records of the types
-   A, AAAA, NS, CNAME, PTR, SOA, MX, TXT, SRV with their fields in range (wf_rdata).
+   label holds a literal dot or backslash (wf_q, wf_rr with canon_names) — records of every type
+   that has an encoder (A, AAAA, NS, CNAME, PTR, SOA, MX, TXT, SRV, NAPTR, URI, OPT, RRSIG, DNSKEY,
+   SVCB, HTTPS) with their fields in range (wf_rdata), and a response code whose upper bits are the
+   extended-RCODE bits of the OPT records among the Additionals (as decoding computes them).
    Serializing with FixLengths+ComputeChecksums over any payload into any buffer succeeds; decoding
    the DNS part succeeds, is not truncated, and gives back the same header fields, the counts the
    serializer stored, the same questions (metadata included) and records with the same fields
    (rr_same: name, type, class, TTL, the type's RDATA fields, the metadata; DataLength/Data describe
-   the new wire form), Contents = the bytes written, empty payload. *)
+   the new wire form), Contents = the bytes written, empty payload.
+   Not covered by a theorem: that every successfully decoded value is dns_wf after FixLengths (it is
+   not: HINFO and unknown types have no encoder, A/AAAA may carry a wrong-size address, a name may
+   exceed 255 octets only after decompression); the harness checks the round trip of decoded values
+   with exactly these exceptions (oracle clauses C06:roundtrip, C06:serialize-error, C06:fixpoint). *)
 Theorem C06_dns_roundtrip : forall d payload junk, dns_wf d ->
   exists w d2,
     roundtrip d payload junk = (Ok (w ++ payload), (d2, Ok tt, false)) /\
@@ -100,6 +106,18 @@ Proof.
       repeat split; try lia; try (vm_compute; reflexivity); try (vm_compute; intro; discriminate);
         try (repeat constructor; unfold byte_ok; cbn; lia).
   - split; [reflexivity|]. split; [discriminate|]. eexists. split; [left; reflexivity|discriminate].
+Qed.
+
+(* a BADVERS response: the extended RCODE lives in the OPT record's TTL; dns_wf holds of it *)
+Example C06_dns_nonvacuous_opt :
+  dns_wf (mkDns 1 true 0 false false false false 0 16 0 0 0 1 [] [] []
+    [mkRR [] 41 4096 16777216 0 [] [] [] [] [] [] soa0 srv0 mx0 naptr0 [mkDopt 10 [1;2;3;4;5;6;7;8]] rrsig0 dnskey0 svcb0 uri0 [] None] [] []).
+Proof.
+  unfold dns_wf. cbn [d_id d_opcode d_z d_rcode d_questions d_answers d_authorities d_additionals].
+  repeat split; try (unfold u16_ok; lia); try (cbn; lia); try constructor; try constructor.
+  exists [], [], []. unfold u16_ok, u32_ok. cbn [r_name r_type r_class r_ttl r_names].
+  repeat split; try lia; try (vm_compute; reflexivity); try (vm_compute; intro; discriminate);
+    try (repeat constructor; unfold byte_ok; cbn; lia).
 Qed.
 
 (* the unchanged code ORed the whole ResponseCode — whose upper bits decoding takes from the OPT
